@@ -358,3 +358,69 @@ func ruleC19File(cx *Ctx) {
 	}
 	_ = types.Typ
 }
+
+// ---------------------------------------------------------------------------------------------------------------
+// C05.gettask: the replay task handed out carries exactly what the writer recorded
+// ---------------------------------------------------------------------------------------------------------------
+
+func ruleC05GetTask(cx *Ctx) {
+	const rule = "C05.gettask"
+	cx.R.Rule(rule, 2, "getTask returns, on every path (fresh or recycled object), a task whose node, old node, reason and cause are its four arguments; putTask clears all four before the object returns to the pool (a recycled task never carries a previous write)")
+	gt := cx.need(rule, "", "cache", "getTask")
+	if gt == nil {
+		return
+	}
+	ps := newPathSum(cx)
+	outs := ps.Run(gt, nil)
+	a := newAgg(cx, rule, funcName(gt), cx.P.Pos(gt.Pos()))
+	want := map[string]string{"n": "param:" + pname(bparam(gt, 1)), "old": "param:" + pname(bparam(gt, 2)), "writeReason": "param:" + pname(bparam(gt, 3)), "deletionCause": "param:" + pname(bparam(gt, 4))}
+	n := 0
+	for _, o := range outs {
+		if o.Cut || o.Panic || len(o.Rets) != 1 {
+			continue
+		}
+		n++
+		obj := trimAmp(o.Rets[0])
+		got := map[string]string{}
+		for _, e := range o.S.trace {
+			if (e.Kind == "FieldStore" || e.Kind == "LitStore") && len(e.Args) == 2 && strings.HasPrefix(e.Args[0], obj+".") {
+				got[e.Args[0][len(obj)+1:]] = e.Args[1]
+			}
+		}
+		for f, w := range want {
+			a.check("field "+f+" is the argument", got[f] == w, "the task returned carries the argument in its field "+f, fmt.Sprintf("got %q want %q", got[f], w), o)
+		}
+	}
+	a.flush()
+	cx.R.Check(n >= 1, rule, funcName(gt), "returning paths", cx.P.Pos(gt.Pos()), fmt.Sprintf("%d", n))
+	if pt := cx.need(rule, "", "cache", "putTask"); pt != nil {
+		// every field store before the Put stores a zero value, and all four fields are stored
+		fields := map[string]bool{}
+		okZ := true
+		var put ssa.Instruction
+		allInstrs(pt, func(in ssa.Instruction) {
+			if isStdMethod(in, "sync", "Pool", "Put") {
+				put = in
+			}
+		})
+		allInstrs(pt, func(in ssa.Instruction) {
+			st, ok := in.(*ssa.Store)
+			if !ok {
+				return
+			}
+			f := fieldOf(st.Addr)
+			if f == nil || structNameOfAddr(st.Addr) != "task" {
+				return
+			}
+			fields[fname(f)] = true
+			zero := isNilConst(st.Val)
+			if c, isC := constInt(stripConv(st.Val)); isC && c == 0 {
+				zero = true
+			}
+			if !zero || put == nil || !instrDominates(st, put) {
+				okZ = false
+			}
+		})
+		cx.R.Check(okZ && put != nil && len(fields) == 4, rule, funcName(pt), "all fields cleared before Put", cx.P.Pos(pt.Pos()), fmt.Sprintf("cleared %d of 4 fields", len(fields)))
+	}
+}
